@@ -276,6 +276,25 @@ theorem eigen_branch_ne_4 (m : Mat K) : (eigen m).branch ≠ 4 := by
     simp only [Bool.false_and, Bool.false_eq_true, if_false, Bool.not_false, if_true]
     split <;> simp
 
+/-- **Real eigenvalues whenever the off-diagonal entries have the same sign** (in particular for every
+symmetric matrix), for every tolerance and without any assumption on `sqrt`: `Eigen` never answers "no real
+eigenvalue" there, whatever `solveQuadraticFormula` made of the discriminant (repaired by 2c3bd2a; before,
+a discriminant rounded below zero gave NaN radii in `Path.Transform`). -/
+theorem eigen_real_of_same_sign (m : Mat K) (h : 0 ≤ m.b * m.d) :
+    (eigenvalues m).1 ≠ none ∧ (eigen m).l1 ≠ none := by
+  have hv : (eigenvalues m).1 ≠ none := by
+    unfold eigenvalues
+    simp only []
+    split
+    · simp [h]
+    · rename_i x hx; rw [hx]; simp
+  refine ⟨hv, ?_⟩
+  unfold eigen
+  simp only [ops_equal]
+  cases hr : (eigenvalues m).1 with
+  | none => exact absurd hr hv
+  | some l1 => split_ifs <;> simp
+
 /-! ## The ArcTo case of `Path.Transform` -/
 
 /-- **Arc re-parametrisation is exact.** For invertible `m`, positive radii and a unit axis `(c, s)` the
